@@ -153,7 +153,7 @@ package limiter
 //@   ensures[C02] listener_iff_ok: ret1 <==> ret0 != nil
 //@   ensures[C13] cancel_checked_first: ncallsIter("context.Context.Err") == 1 && (callresIter("context.Context.Err", 0, 0) != nil ==> !ret1 && ncallsIter("core.Limiter.Acquire") == 0)
 //@   ensures[C13] refused_only_when_cancelled: !ret1 ==> callresIter("context.Context.Err", 0, 0) != nil
-//@   ensures[C02] grant_is_the_delegates: ret1 ==> (ncallsIter("core.Limiter.Acquire") == 1 && ret0 == callresIter("core.Limiter.Acquire", 0, 0) && callresIter("core.Limiter.Acquire", 0, 1)) || (ncallsIter("core.Limiter.Acquire") == 2 && ret0 == callresIter("core.Limiter.Acquire", 1, 0) && callresIter("core.Limiter.Acquire", 1, 1) && callresIter("core.Limiter.Acquire", 0, 0) == nil)
+//@   ensures[C02,C19] grant_is_the_delegates: ret1 ==> (ncallsIter("core.Limiter.Acquire") == 1 && ret0 == callresIter("core.Limiter.Acquire", 0, 0) && callresIter("core.Limiter.Acquire", 0, 1)) || (ncallsIter("core.Limiter.Acquire") == 2 && ret0 == callresIter("core.Limiter.Acquire", 1, 0) && callresIter("core.Limiter.Acquire", 1, 1) && callresIter("core.Limiter.Acquire", 0, 0) == nil)
 //@   ensures[C02] delegate_is_ours: ncallsIter("core.Limiter.Acquire") >= 1 ==> callrecvIter("core.Limiter.Acquire", 0) == l.delegate
 
 //@ func (*BlockingLimiter).Acquire
@@ -169,7 +169,7 @@ package limiter
 //@   ensures[C13] cancel_checked_first: ncallsIter("context.Context.Err") == 1 && (callresIter("context.Context.Err", 0, 0) != nil ==> !ok && ncallsIter("core.Limiter.Acquire") == 0)
 //@   ensures[C13] past_deadline_refused: callresIter("context.Context.Err", 0, 0) == nil && callresIter("time.Now", 0, 0) > l.deadline ==> !ok && ncallsIter("core.Limiter.Acquire") == 0
 //@   ensures[C13] refusal_reasons: !ok ==> callresIter("context.Context.Err", 0, 0) != nil || callresIter("time.Now", 0, 0) > l.deadline || (ncallsIter("time.Now") == 2 && l.deadline - callresIter("time.Now", 1, 0) <= 0)
-//@   ensures[C02] grant_is_the_delegates: ok ==> (ncallsIter("core.Limiter.Acquire") == 1 && listener == callresIter("core.Limiter.Acquire", 0, 0)) || (ncallsIter("core.Limiter.Acquire") == 2 && listener == callresIter("core.Limiter.Acquire", 1, 0))
+//@   ensures[C02,C19] grant_is_the_delegates: ok ==> (ncallsIter("core.Limiter.Acquire") == 1 && listener == callresIter("core.Limiter.Acquire", 0, 0)) || (ncallsIter("core.Limiter.Acquire") == 2 && listener == callresIter("core.Limiter.Acquire", 1, 0))
 
 //@ func (*DeadlineLimiter).Acquire
 //@   maintains l
@@ -180,15 +180,15 @@ package limiter
 //@ func (*DelegateListener).OnSuccess
 //@   requires objs: l.delegateListener != nil && l.c != nil
 //@   ensures[C02] forwards_once: ncalls("core.Listener.OnSuccess") == 1 && callrecv("core.Listener.OnSuccess", 0) == l.delegateListener && ncalls("core.Listener.OnIgnore") == 0 && ncalls("core.Listener.OnDropped") == 0
-//@   ensures[C02,C10] then_wakes_waiters: ncalls("(*sync.Cond).Broadcast") == 1 && callrecv("(*sync.Cond).Broadcast", 0) == l.c && callpos("core.Listener.OnSuccess", 0) < callpos("(*sync.Cond).Broadcast", 0)
+//@   ensures[C02,C10,C19] then_wakes_waiters: ncalls("(*sync.Cond).Broadcast") == 1 && callrecv("(*sync.Cond).Broadcast", 0) == l.c && callpos("core.Listener.OnSuccess", 0) < callpos("(*sync.Cond).Broadcast", 0)
 //@ func (*DelegateListener).OnIgnore
 //@   requires objs: l.delegateListener != nil && l.c != nil
 //@   ensures[C02] forwards_once: ncalls("core.Listener.OnIgnore") == 1 && callrecv("core.Listener.OnIgnore", 0) == l.delegateListener && ncalls("core.Listener.OnSuccess") == 0 && ncalls("core.Listener.OnDropped") == 0
-//@   ensures[C02,C10] then_wakes_waiters: ncalls("(*sync.Cond).Broadcast") == 1 && callrecv("(*sync.Cond).Broadcast", 0) == l.c && callpos("core.Listener.OnIgnore", 0) < callpos("(*sync.Cond).Broadcast", 0)
+//@   ensures[C02,C10,C19] then_wakes_waiters: ncalls("(*sync.Cond).Broadcast") == 1 && callrecv("(*sync.Cond).Broadcast", 0) == l.c && callpos("core.Listener.OnIgnore", 0) < callpos("(*sync.Cond).Broadcast", 0)
 //@ func (*DelegateListener).OnDropped
 //@   requires objs: l.delegateListener != nil && l.c != nil
 //@   ensures[C02] forwards_once: ncalls("core.Listener.OnDropped") == 1 && callrecv("core.Listener.OnDropped", 0) == l.delegateListener && ncalls("core.Listener.OnSuccess") == 0 && ncalls("core.Listener.OnIgnore") == 0
-//@   ensures[C02,C10] then_wakes_waiters: ncalls("(*sync.Cond).Broadcast") == 1 && callrecv("(*sync.Cond).Broadcast", 0) == l.c && callpos("core.Listener.OnDropped", 0) < callpos("(*sync.Cond).Broadcast", 0)
+//@   ensures[C02,C10,C19] then_wakes_waiters: ncalls("(*sync.Cond).Broadcast") == 1 && callrecv("(*sync.Cond).Broadcast", 0) == l.c && callpos("core.Listener.OnDropped", 0) < callpos("(*sync.Cond).Broadcast", 0)
 
 // ---------------------------------------------------------------------------------------------
 // Queue limiter (C02, C11, C12, C13). container/list is a ghost-state stub: lmember(list, e),
@@ -226,7 +226,7 @@ package limiter
 //@   maintains q
 //@   ensures[C12] one_more: llen(q.list) == old(llen(q.list)) + 1 && ncalls("(*container/list.List).PushFront") == 1
 //@   ensures[C11] newest: lmember(q.list, qPushed()) && (forall o ref :: old(lmember(q.list, o)) ==> lmember(q.list, o) && lstamp(o) < lstamp(qPushed()))
-//@   ensures[C02,C12] waiter_record: dyntype(callarg("(*container/list.List).PushFront", 0, 0), "*limiter.queueElement") && as(callarg("(*container/list.List).PushFront", 0, 0), "*limiter.queueElement").ctx == ctx && as(callarg("(*container/list.List).PushFront", 0, 0), "*limiter.queueElement").releaseChan == ret1 && fresh(ret1) && chancap(ret1) == 0
+//@   ensures[C02,C12,C19] waiter_record: dyntype(callarg("(*container/list.List).PushFront", 0, 0), "*limiter.queueElement") && as(callarg("(*container/list.List).PushFront", 0, 0), "*limiter.queueElement").ctx == ctx && as(callarg("(*container/list.List).PushFront", 0, 0), "*limiter.queueElement").releaseChan == ret1 && fresh(ret1) && chancap(ret1) == 0
 //@   ensures[C12] evict_closure: isfunc(ret0, "(*limiter.queue).evictionFunc$1") && *captured(ret0, "(*limiter.queue).evictionFunc$1", 0) == q && lmember(q.list, peeked(ret0))
 //@   ensures[C12] evict_removes_it: ref(*captured(ret0, "(*limiter.queue).evictionFunc$1", 1)) == qPushed()
 //@   owns[C17]
@@ -246,9 +246,9 @@ package limiter
 //@   owns[C17]
 
 //@ func (*queueElement).setListener
-//@   ensures[C02] accepted_means_sent: result <==> ncalls("select") == 1 && callres("select", 0, 0) == 0
-//@   ensures[C02] sends_that_listener: ncalls("select") == 1 && callarg("select", 0, 0) == e.releaseChan && callarg("select", 0, 1) == listener
-//@   ensures[C02] closes_after_send: result ==> ncalls("chan.close") == 1
+//@   ensures[C02,C19] accepted_means_sent: result <==> ncalls("select") == 1 && callres("select", 0, 0) == 0
+//@   ensures[C02,C19] sends_that_listener: ncalls("select") == 1 && callarg("select", 0, 0) == e.releaseChan && callarg("select", 0, 1) == listener
+//@   ensures[C02,C19] closes_after_send: result ==> ncalls("chan.close") == 1
 
 //@ func (*QueueBlockingListener).unblock
 //@   requires objs: l.limiter != nil && inv(l.limiter)
@@ -256,8 +256,8 @@ package limiter
 //@   ensures[C02,C12] empty_backlog_no_acquire: old(llen(l.limiter.backlog.list)) == 0 ==> ncalls("core.Limiter.Acquire") == 0
 //@   ensures[C02] at_most_one_acquire: ncalls("core.Limiter.Acquire") <= 1
 //@   ensures[C11] for_the_peeked_waiter: ncalls("core.Limiter.Acquire") == 1 ==> callrecv("core.Limiter.Acquire", 0) == l.limiter.delegate && ncalls("(*limiter.queue).peek") == 1 && callarg("core.Limiter.Acquire", 0, 0) == callres("(*limiter.queue).peek", 0, 1).ctx
-//@   ensures[C02,C12] granted_is_evicted_then_handed: ncalls("core.Limiter.Acquire") == 1 && callres("core.Limiter.Acquire", 0, 1) && callres("core.Limiter.Acquire", 0, 0) != nil ==> ncalls("(*limiter.queue).evictionFunc$1") == 1 && ncalls("select") == 1 && callpos("(*limiter.queue).evictionFunc$1", 0) < callpos("select", 0) && callarg("select", 0, 1) == callres("core.Limiter.Acquire", 0, 0) && callarg("select", 0, 0) == callres("(*limiter.queue).peek", 0, 1).releaseChan
-//@   ensures[C02] handed_or_returned: ncalls("core.Limiter.Acquire") == 1 && callres("core.Limiter.Acquire", 0, 1) && callres("core.Limiter.Acquire", 0, 0) != nil ==> (callres("select", 0, 0) == 0 && ncalls("core.Listener.OnIgnore") == 0) || (callres("select", 0, 0) != 0 && ncalls("core.Listener.OnIgnore") == 1 && callrecv("core.Listener.OnIgnore", 0) == callres("core.Limiter.Acquire", 0, 0))
+//@   ensures[C02,C12,C19] granted_is_evicted_then_handed: ncalls("core.Limiter.Acquire") == 1 && callres("core.Limiter.Acquire", 0, 1) && callres("core.Limiter.Acquire", 0, 0) != nil ==> ncalls("(*limiter.queue).evictionFunc$1") == 1 && ncalls("select") == 1 && callpos("(*limiter.queue).evictionFunc$1", 0) < callpos("select", 0) && callarg("select", 0, 1) == callres("core.Limiter.Acquire", 0, 0) && callarg("select", 0, 0) == callres("(*limiter.queue).peek", 0, 1).releaseChan
+//@   ensures[C02,C19] handed_or_returned: ncalls("core.Limiter.Acquire") == 1 && callres("core.Limiter.Acquire", 0, 1) && callres("core.Limiter.Acquire", 0, 0) != nil ==> (callres("select", 0, 0) == 0 && ncalls("core.Listener.OnIgnore") == 0) || (callres("select", 0, 0) != 0 && ncalls("core.Listener.OnIgnore") == 1 && callrecv("core.Listener.OnIgnore", 0) == callres("core.Limiter.Acquire", 0, 0))
 //@   ensures[C02] refused_touches_nothing: ncalls("core.Limiter.Acquire") == 1 && !(callres("core.Limiter.Acquire", 0, 1) && callres("core.Limiter.Acquire", 0, 0) != nil) ==> ncalls("(*limiter.queue).evictionFunc$1") == 0 && ncalls("select") == 0 && ncalls("core.Listener.OnIgnore") == 0
 //@   ensures[C02] never_completes_otherwise: ncalls("core.Listener.OnSuccess") == 0 && ncalls("core.Listener.OnDropped") == 0
 //@   ensures[C12,C17] serialised: ncalls("core.Limiter.Acquire") == 1 ==> calledUnder("core.Limiter.Acquire", 0, l.limiter.mu)
@@ -265,13 +265,13 @@ package limiter
 
 //@ func (*QueueBlockingListener).OnSuccess
 //@   requires objs: l.delegateListener != nil && l.limiter != nil && inv(l.limiter)
-//@   ensures[C02] forwards_once_then_unblocks: ncalls("core.Listener.OnSuccess") == 1 && callrecv("core.Listener.OnSuccess", 0) == l.delegateListener && ncalls("(*limiter.QueueBlockingListener).unblock") == 1 && callpos("core.Listener.OnSuccess", 0) < callpos("(*limiter.QueueBlockingListener).unblock", 0) && ncalls("core.Listener.OnIgnore") == 0 && ncalls("core.Listener.OnDropped") == 0
+//@   ensures[C02,C19] forwards_once_then_unblocks: ncalls("core.Listener.OnSuccess") == 1 && callrecv("core.Listener.OnSuccess", 0) == l.delegateListener && ncalls("(*limiter.QueueBlockingListener).unblock") == 1 && callpos("core.Listener.OnSuccess", 0) < callpos("(*limiter.QueueBlockingListener).unblock", 0) && ncalls("core.Listener.OnIgnore") == 0 && ncalls("core.Listener.OnDropped") == 0
 //@ func (*QueueBlockingListener).OnIgnore
 //@   requires objs: l.delegateListener != nil && l.limiter != nil && inv(l.limiter)
-//@   ensures[C02] forwards_once_then_unblocks: ncalls("core.Listener.OnIgnore") == 1 && callrecv("core.Listener.OnIgnore", 0) == l.delegateListener && ncalls("(*limiter.QueueBlockingListener).unblock") == 1 && callpos("core.Listener.OnIgnore", 0) < callpos("(*limiter.QueueBlockingListener).unblock", 0) && ncalls("core.Listener.OnSuccess") == 0 && ncalls("core.Listener.OnDropped") == 0
+//@   ensures[C02,C19] forwards_once_then_unblocks: ncalls("core.Listener.OnIgnore") == 1 && callrecv("core.Listener.OnIgnore", 0) == l.delegateListener && ncalls("(*limiter.QueueBlockingListener).unblock") == 1 && callpos("core.Listener.OnIgnore", 0) < callpos("(*limiter.QueueBlockingListener).unblock", 0) && ncalls("core.Listener.OnSuccess") == 0 && ncalls("core.Listener.OnDropped") == 0
 //@ func (*QueueBlockingListener).OnDropped
 //@   requires objs: l.delegateListener != nil && l.limiter != nil && inv(l.limiter)
-//@   ensures[C02] forwards_once_then_unblocks: ncalls("core.Listener.OnDropped") == 1 && callrecv("core.Listener.OnDropped", 0) == l.delegateListener && ncalls("(*limiter.QueueBlockingListener).unblock") == 1 && callpos("core.Listener.OnDropped", 0) < callpos("(*limiter.QueueBlockingListener).unblock", 0) && ncalls("core.Listener.OnSuccess") == 0 && ncalls("core.Listener.OnIgnore") == 0
+//@   ensures[C02,C19] forwards_once_then_unblocks: ncalls("core.Listener.OnDropped") == 1 && callrecv("core.Listener.OnDropped", 0) == l.delegateListener && ncalls("(*limiter.QueueBlockingListener).unblock") == 1 && callpos("core.Listener.OnDropped", 0) < callpos("(*limiter.QueueBlockingListener).unblock", 0) && ncalls("core.Listener.OnSuccess") == 0 && ncalls("core.Listener.OnIgnore") == 0
 
 //@ func (*QueueBlockingLimiter).tryAcquire
 //@   maintains l
